@@ -204,7 +204,7 @@ def orchestrate(prop_id, tier, seed):
         shutil.rmtree(tmp, ignore_errors=True)
 
     violations = [v for r in results for v in r['violations']]
-    rdir = os.path.join(VERIF, 'replays')
+    rdir = os.environ.get('VERIF_REPLAY_DIR') or os.path.join(VERIF, 'replays')
     paths = []
     if violations:
         os.makedirs(rdir, exist_ok=True)
